@@ -75,3 +75,121 @@ def solver_environment(highs_available, highs_factory, default_solver):
     finally:
         pulp.HiGHS_CMD = old_h
         pulp.LpSolverDefault = old_d
+
+
+# ------------------------------------------------------------------------------------------------
+# controlled set iteration (C14)
+
+class Schedule:
+    """Deviation-bounded choice of iteration orders. plan: {choice_point_index: alternative_index}."""
+
+    def __init__(self):
+        self.plan = {}
+        self.points = []  # number of alternatives seen at each choice point of the current execution
+        self.active = False
+
+    def start(self, plan):
+        self.plan = dict(plan)
+        self.points = []
+        self.active = True
+
+    def stop(self):
+        self.active = False
+
+    def choose(self, items):
+        n = len(items)
+        alts = alternatives(n)
+        k = len(self.points)
+        self.points.append(len(alts))
+        a = self.plan.get(k, 0)
+        if a >= len(alts):
+            raise RuntimeError("schedule diverged: choice point %d has %d alternatives, plan wants %d" % (k, len(alts), a))
+        return [items[i] for i in alts[a]]
+
+
+_ALT_CACHE = {}
+
+
+def alternatives(n):
+    """Orders offered at a choice point over n items (as index permutations); alternative 0 = insertion order.
+    n <= 4: all permutations; larger: reversal, every adjacent transposition, every move-to-front."""
+    if n in _ALT_CACHE:
+        return _ALT_CACHE[n]
+    import itertools
+
+    ident = tuple(range(n))
+    if n <= 4:
+        alts = [ident] + [p for p in itertools.permutations(range(n)) if p != ident]
+    else:
+        alts = [ident, tuple(reversed(ident))]
+        for i in range(n - 1):
+            p = list(ident)
+            p[i], p[i + 1] = p[i + 1], p[i]
+            alts.append(tuple(p))
+        for i in range(2, n):
+            alts.append((i,) + tuple(j for j in ident if j != i))
+        seen = set()
+        alts = [a for a in alts if not (a in seen or seen.add(a))]
+    _ALT_CACHE[n] = alts
+    return alts
+
+
+SCHEDULE = Schedule()
+
+
+def _seed_dependent(x):
+    if isinstance(x, (int, float, bool)) or x is None:
+        return False
+    if isinstance(x, (tuple, frozenset)):
+        return any(_seed_dependent(y) for y in x)
+    return True  # str, Enum, dataclass instances, objects
+
+
+class ChoiceSet(set):
+    """set whose iteration order over seed-dependent elements is chosen by the explorer (insertion order by default)."""
+
+    def __init__(self, iterable=()):
+        super().__init__()
+        self._order = []
+        for x in iterable:
+            self.add(x)
+
+    def add(self, x):
+        if x not in self:
+            self._order.append(x)
+        super().add(x)
+
+    def update(self, *others):
+        for o in others:
+            for x in o:
+                self.add(x)
+
+    def remove(self, x):
+        super().remove(x)
+        self._order.remove(x)
+
+    def discard(self, x):
+        if x in self:
+            self.remove(x)
+
+    def pop(self):
+        x = self._order.pop()
+        super().remove(x)
+        return x
+
+    def clear(self):
+        super().clear()
+        self._order = []
+
+    def __iter__(self):
+        if not SCHEDULE.active or len(self._order) < 2 or not any(_seed_dependent(x) for x in self._order):
+            if any(_seed_dependent(x) for x in self._order):
+                return iter(list(self._order))
+            return super().__iter__()
+        return iter(SCHEDULE.choose(list(self._order)))
+
+    def copy(self):
+        return ChoiceSet(self._order)
+
+    def __reduce__(self):
+        return (ChoiceSet, (list(self._order),))
